@@ -70,6 +70,8 @@ Group(c)    == IF c >= 15 THEN 8 ELSE (c + 1) \div 2
 NGroups     == 8
 \* the contents worth writing next to / over content c: the very same bytes and the ones that collide with it
 Partners(c) == {d \in AllContents : Group(d) = Group(c)}
+ASSUME /\ Len(SizeOf) = 18 /\ Contents \subseteq AllContents
+       /\ \A c, d \in AllContents : (Group(c) = Group(d) /\ Group(c) # 1) => SizeOf[c] = SizeOf[d]
 
 VARIABLES fs, nextOid, feed
 pvars == <<fs, nextOid, feed>>
